@@ -249,6 +249,8 @@ func c01(c *Ctx) {
 
 	c01plugin(c)
 	c01walk(c)
+	exactCmpPackage(c) // the max cap on the request handed to the parent is an exact comparison
+	c01values(c)
 
 	// ---- LOCK
 	r.Rule("LOCK: GroupQuotaManager.{quotaInfoMap,runtimeQuotaCalculatorMap,quotaTopoNodeMap} are read under hierarchyUpdateLock (R/W) and written under the write lock; *NoLock helpers pass the requirement to their callers")
